@@ -138,8 +138,8 @@ func isCallNamed(v ssa.Value, name string) bool {
 
 func init() {
 	register(&propDef{
-		ID: "C04",
-		Explain: "Decided (structural necessary conditions): in Server.Subscribe the streaming registration (addSubscription -> match.AddQuery for every subscription with a path) precedes the start of the cache walk on every STREAM path; the remove function is only deferred (never run before the RPC ends); exactly one sync marker per walk, after the last Cache.Query and never on an error path, or exactly one before registration for updates_only; the walk and the feed enqueue leaf handles (not value snapshots) and the sender reads the value at send time; walk, feed and sender share one queue; the cache writes the tree before notifying the feed.",
+		ID:       "C04",
+		Explain:  "Decided (structural necessary conditions): in Server.Subscribe the streaming registration (addSubscription -> match.AddQuery for every subscription with a path) precedes the start of the cache walk on every STREAM path; the remove function is only deferred (never run before the RPC ends); exactly one sync marker per walk, after the last Cache.Query and never on an error path, or exactly one before registration for updates_only; the walk and the feed enqueue leaf handles (not value snapshots) and the sender reads the value at send time; walk, feed and sender share one queue; the cache writes the tree before notifying the feed.",
 		NotCover: "convergence of the subscriber's view under all interleavings, delete/re-add races, behaviour of ctree/match/coalesce themselves (C06, C10, C11)",
 		Run:      runC04,
 	})
@@ -355,7 +355,9 @@ func runC04(c *Ctx) {
 	{
 		e := &PPA{
 			MaxVisits: 3,
-			Inline:    func(fr *Frame, call ssa.CallInstruction, callee *ssa.Function) bool { return callee.Parent() == procSub },
+			Inline: func(fr *Frame, call ssa.CallInstruction, callee *ssa.Function) bool {
+				return callee.Parent() == procSub
+			},
 			Watch: func(ev *Ev) bool {
 				return isQueueInsert(ev) || ev.Label == "call:(*cache.Cache).Query" || strings.HasPrefix(ev.Label, "send:")
 			},
